@@ -203,7 +203,7 @@ class Check:
             try:
                 p = subprocess.run(["nice", "coqchk", "-silent", "-o", "-Q", ".", "MV", "MV.Props." + mod],
                                    cwd=COQ, stdout=subprocess.PIPE, stderr=subprocess.STDOUT, text=True,
-                                   timeout=int(os.environ.get("VERIF_COQCHK_TIMEOUT", "3000")))
+                                   timeout=int(os.environ.get("VERIF_COQCHK_TIMEOUT", "5400")))
                 self._coqchk["rc"], self._coqchk["out"] = p.returncode, p.stdout
             except subprocess.TimeoutExpired:
                 self._coqchk["rc"], self._coqchk["out"] = -1, "coqchk timed out"
